@@ -24,9 +24,13 @@ type c14Att struct {
 }
 
 type c14Op struct {
-	Kind string   `json:"kind"` // put | delete | branch
+	// put | delete | branch | chainA | chainB.  chainA pushes revision A (child of the document's revision at
+	// the start of the round), chainB pushes revision B with history [B, A, start]: two replicators pushing
+	// overlapping histories, so that one write's retry finds the ancestor the other just stored.
+	Kind string   `json:"kind"`
 	Doc  int      `json:"doc"`
 	Atts []c14Att `json:"atts,omitempty"`
+	Base []c14Att `json:"base,omitempty"` // chainB: the attachments of revision A
 }
 
 type c14Plan struct {
@@ -134,6 +138,37 @@ func c14Generate(seed uint64, tier string, index int) json.RawMessage {
 			p.Restart = append(p.Restart, false)
 		}
 	}
+	if index%8 == 6 {
+		// directed flavour: overlapping pushes.  Each round one task pushes A (adds attachments) while another
+		// pushes B on top of A (keeps, drops or replaces them), sometimes next to an ordinary writer
+		p.Node.CCVOff, p.Node.RevsLimit = r.Chance(850), 0
+		p.Rounds, p.Restart = nil, nil
+		for rd := 0; rd < r.Range(2, 4); rd++ {
+			var base []c14Att
+			for _, name := range c14Names {
+				if r.Chance(500) || len(base) == 0 {
+					content++
+					base = append(base, c14Att{Name: name, Action: "new", Content: content})
+				}
+			}
+			opB := c14Op{Kind: "chainB", Doc: 0, Base: base}
+			for _, a := range base {
+				switch y := r.Intn(10); {
+				case y < 3:
+					opB.Atts = append(opB.Atts, c14Att{Name: a.Name, Action: "keep"})
+				case y < 5:
+					content++
+					opB.Atts = append(opB.Atts, c14Att{Name: a.Name, Action: "new", Content: content})
+				}
+			}
+			tasks := [][]c14Op{{{Kind: "chainA", Doc: 0, Atts: base}}, {opB}}
+			if r.Chance(300) {
+				tasks = append(tasks, []c14Op{{Kind: "put", Doc: 0}})
+			}
+			p.Rounds = append(p.Rounds, tasks)
+			p.Restart = append(p.Restart, false)
+		}
+	}
 	p.Faulty = index%2 == 1
 	if p.Faulty {
 		p.Cfg.MaxFaults = r.Range(1, 5)
@@ -216,6 +251,8 @@ func c14Run(env *verifsim.Env, raw json.RawMessage) *verifsim.Violation {
 	branched := map[string]bool{}                  // docs that received an acknowledged conflicting (pushed) revision
 	revposOf := map[string]int{}                   // doc/rev/name -> generation at which that attachment content was added
 	erroredWrite := false
+	roundStart := map[string]string{} // doc -> current revision at the start of the round (parent of the round's chain)
+	roundNo := 0
 	// acknowledged writes per doc with the digests they stopped referencing and the ones they stored anew
 	type c14Write struct {
 		call, ret      int64
@@ -249,17 +286,57 @@ func c14Run(env *verifsim.Env, raw json.RawMessage) *verifsim.Violation {
 				parentDeleted = parentHist[parent].Deleted
 			}
 		}
+		chainStart, chainA := "", ""
+		if op.Kind == "chainA" || op.Kind == "chainB" {
+			emu.Lock()
+			chainStart = roundStart[id]
+			emu.Unlock()
+			parent, parentDeleted = chainStart, false
+			if ri := parentHist[chainStart]; ri != nil {
+				parentDeleted = ri.Deleted
+			}
+			sg, _ := ParseRevID(ctx, chainStart)
+			chainA = fmt.Sprintf("%d-r%da", sg+1, roundNo)
+		}
 		emu.Lock()
 		parentAtts := expected[id][parent]
 		emu.Unlock()
 		if parentDeleted {
 			parentAtts = nil
 		}
+		if op.Kind == "chainB" {
+			// the parent is revision A, whose attachments are known from the plan
+			sg, _ := ParseRevID(ctx, chainStart)
+			parentAtts = map[string][]byte{}
+			for _, a := range op.Base {
+				parentAtts[a.Name] = c14Content(a.Content)
+				emu.Lock()
+				revposOf[id+"/"+chainA+"/"+a.Name] = sg + 1
+				emu.Unlock()
+			}
+			parent = chainA
+		}
 		newAtts := map[string][]byte{}
 		newRevpos := map[string]int{}
 		bodyAtts := map[string]any{}
 		gen, _ := ParseRevID(ctx, parent)
-		for _, a := range op.Atts {
+		opAtts := op.Atts
+		if op.Kind == "chainB" {
+			// A replicator marks an attachment as a stub only if it was added at or before an ancestor the server
+			// is known to have; what revision A added travels with its data (the BLIP layer asks for it).
+			opAtts = nil
+			for _, a := range op.Atts {
+				if a.Action == "keep" {
+					for _, b := range op.Base {
+						if b.Name == a.Name {
+							a = c14Att{Name: a.Name, Action: "new", Content: b.Content}
+						}
+					}
+				}
+				opAtts = append(opAtts, a)
+			}
+		}
+		for _, a := range opAtts {
 			switch a.Action {
 			case "new":
 				c := c14Content(a.Content)
@@ -289,6 +366,8 @@ func c14Run(env *verifsim.Env, raw json.RawMessage) *verifsim.Violation {
 		}
 		var rev string
 		var err error
+		var pushed *Document
+		isPush := false
 		switch op.Kind {
 		case "put":
 			if parent != "" {
@@ -308,7 +387,26 @@ func c14Run(env *verifsim.Env, raw json.RawMessage) *verifsim.Violation {
 			if parent != "" {
 				hist = append(hist, parent)
 			}
-			_, rev, err = coll.PutExistingRevWithBody(ctx, id, body, hist, false, ExistingVersionWithUpdateToHLV)
+			isPush = true
+			pushed, rev, err = coll.PutExistingRevWithBody(ctx, id, body, hist, false, ExistingVersionWithUpdateToHLV)
+		case "chainA":
+			hist := []string{chainA}
+			if chainStart != "" {
+				hist = append(hist, chainStart)
+			}
+			isPush = true
+			pushed, rev, err = coll.PutExistingRevWithBody(ctx, id, body, hist, false, ExistingVersionWithUpdateToHLV)
+		case "chainB":
+			hist := []string{fmt.Sprintf("%d-r%db", gen+1, roundNo), chainA}
+			if chainStart != "" {
+				hist = append(hist, chainStart)
+			}
+			isPush = true
+			pushed, rev, err = coll.PutExistingRevWithBody(ctx, id, body, hist, false, ExistingVersionWithUpdateToHLV)
+		}
+		noop := isPush && err == nil && pushed == nil // the revision was already known: nothing was written
+		if noop {
+			rev = ""
 		}
 		rec.End(rev, err)
 		if err == nil && rev != "" {
@@ -324,7 +422,7 @@ func c14Run(env *verifsim.Env, raw json.RawMessage) *verifsim.Violation {
 			for _, c := range newAtts {
 				ackedDigest[id][Sha1DigestKey(c)] = true
 			}
-			if op.Kind == "branch" {
+			if op.Kind == "branch" || op.Kind == "chainA" || op.Kind == "chainB" {
 				branched[id] = true
 			}
 			wr := c14Write{call: rec.Call, ret: rec.Return, dropped: map[string]bool{}, added: map[string]bool{}}
@@ -340,18 +438,19 @@ func c14Run(env *verifsim.Env, raw json.RawMessage) *verifsim.Violation {
 			ackedWrites[id] = append(ackedWrites[id], wr)
 			emu.Unlock()
 			record(id, rev, newAtts)
-		} else if err != nil {
+		} else if err != nil || noop {
 			emu.Lock()
 			if rejectedDigest[id] == nil {
 				rejectedDigest[id] = map[string]bool{}
 			}
-			for _, a := range op.Atts {
+			for _, a := range opAtts {
 				if a.Action == "new" {
-					// attachment data is stored before the document write: a rejected write leaves (or re-creates) it
+					// attachment data is stored before the document write: a rejected write (or one whose retry finds
+					// the revision already stored by someone else) leaves (or re-creates) it
 					rejectedDigest[id][Sha1DigestKey(c14Content(a.Content))] = true
 				}
 			}
-			if !isHTTPStatus(err, 409) {
+			if err != nil && !isHTTPStatus(err, 409) {
 				erroredWrite = true
 			}
 			emu.Unlock()
@@ -492,6 +591,21 @@ func c14Run(env *verifsim.Env, raw json.RawMessage) *verifsim.Violation {
 
 	taskSeq := 0
 	for rd, tasks := range p.Rounds {
+		roundNo = rd
+		if cerr := s.Call(fmt.Sprintf("round-start%d", rd), func() {
+			coll, ctx := n.collection(nil)
+			for d := 0; d < 2; d++ {
+				cur := ""
+				if doc, err := coll.GetDocument(ctx, docID(d), DocUnmarshalSync); err == nil && doc != nil {
+					cur = doc.GetRevTreeID()
+				}
+				emu.Lock()
+				roundStart[docID(d)] = cur
+				emu.Unlock()
+			}
+		}); cerr != nil {
+			return infraOrBudget(cerr)
+		}
 		for _, prog := range tasks {
 			prog := prog
 			taskSeq++
